@@ -126,7 +126,9 @@ def _case(draw):
     raw = {"domain": d, "towers": towers, "met": met, "solver": sol}
     case = {"raw": raw, "tower": draw(st.integers(0, ntw - 1)), "step": draw(st.integers(0, nt - 1)), "flux": None}
     if draw(st.integers(0, 2)) == 0:
-        case["flux"] = draw(gen.source(ny, nx, kinds=("dense", "sparse")))
+        # the supplied array defines the horizontal grid; it need not be the configured nx x ny
+        dny, dnx = draw(st.sampled_from([(0, 0), (0, 0), (1, 2), (-1, 0), (2, -1)]))
+        case["flux"] = draw(gen.source(max(2, ny + dny), max(2, nx + dnx), kinds=("dense", "sparse")))
     return case
 
 
